@@ -18,6 +18,7 @@ import (
 
 	"github.com/apernet/hysteria/core/v2/client"
 	coreErrs "github.com/apernet/hysteria/core/v2/errors"
+	"github.com/apernet/hysteria/core/v2/server"
 	"verif.local/hysim"
 	"verif.local/hysim/simnet"
 )
@@ -27,6 +28,48 @@ func init() {
 	// C12 on real quic-go: the relay workload with BBR on both sides over a path whose MTU the
 	// connection has to discover (probes that raise the datagram size) - see genC12W
 	wExtra = append(wExtra, &hysim.Harness{Name: "c12w", Gen: genC12W, Exec: execC06, LeakOK: true, Isolate: true})
+	wExtra = append(wExtra, &hysim.Harness{Name: "c17w", Gen: genC17W, Exec: execC06, LeakOK: true, Isolate: true})
+}
+
+// c06Hook is a request hook shaped like the sniffer: it reads the first bytes of the client's stream
+// under a deadline and hands them back for replay to the target.
+type c06Hook struct{ n int }
+
+func (h *c06Hook) Check(isUDP bool, reqAddr string) bool { return !isUDP }
+func (h *c06Hook) TCP(stream server.HyStream, reqAddr *string) ([]byte, error) {
+	_ = stream.SetReadDeadline(time.Now().Add(300 * time.Millisecond))
+	buf := make([]byte, h.n)
+	n, _ := io.ReadFull(stream, buf)
+	_ = stream.SetReadDeadline(time.Time{})
+	return buf[:n], nil
+}
+func (h *c06Hook) UDP(data []byte, reqAddr *string) error { return nil }
+
+// genC17W: C17's "replay + remaining stream equals what the client sent, in order" on the real
+// server: the relay workload with a sniffer-shaped hook that consumes the first 1..4096 bytes, with
+// and without a traffic logger (the two relay paths).
+func genC17W(r *hysim.Rand, tier string) *hysim.Script {
+	sc := &hysim.Script{Cfg: map[string]int64{}}
+	sc.Cfg["logger"] = int64(r.Pick(1, 1, 0))
+	sc.Cfg["fastopen"] = int64(r.Pick(0, 1))
+	sc.Cfg["brutal"] = int64(r.Pick(0, 1))
+	sc.Cfg["hook_peek"] = r.Pick64(1, 3, 8, 64, 1200, 4096)
+	sc.Cfg["slow_tgt_us"] = r.Pick64(0, 0, 300, 20000)
+	sc.Cfg["net_delay_us"] = int64(r.Pick(200, 1000, 10000))
+	if r.Chance(1, 3) {
+		sc.Cfg["net_jitter_us"] = int64(r.Pick(100, 2000))
+		sc.Cfg["net_reorder"] = int64(r.Pick(0, 60))
+	}
+	wYieldCfg(r, sc, 200000)
+	sc.Cfg["stratum"] = 0
+	n := r.Range(1, 3)
+	for k := 0; k < n; k++ {
+		plan := int64(r.Pick(planComplete, planComplete, planClientCloses))
+		sc.Ops = append(sc.Ops, hysim.Op{K: "conn", A: []int64{
+			r.Pick64(0, 0, 5, 300), r.Pick64(1, 2, 8, 9, 100, 5000, 70000), r.Pick64(0, 100, 5000),
+			int64(r.Pick(1, 3, 100, 1500, 16384)), int64(r.Pick(100, 1500)), plan, 0, r.Pick64(0, 0, 100, 5000), 0, 0}})
+	}
+	return sc
 }
 
 // genC12W: one or two long-lived transfers, BBR chosen on both sides (no bandwidth declared, every
@@ -302,6 +345,9 @@ func execC06(x *hysim.Run) {
 		return true
 	}
 	so := wServerOpts{Logger: cw.logger, MaxIdle: 8 * time.Second}
+	if n := sc.Get("hook_peek", 0); n > 0 {
+		so.Hook = &c06Hook{n: int(clamp(n, 1, 4096))}
+	}
 	if sc.Get("win_small", 0) == 1 {
 		so.StreamWindow = 65536
 	}
